@@ -198,6 +198,9 @@ func (w *world) alphabet(profile string) []letter {
 			}
 		}
 	}
+	if w.opts.VRF {
+		ls = append(ls, vrfLetters()...)
+	}
 	if w.opts.Runtime {
 		for _, rs := range []roundSpec{
 			{Who: "all"}, {Who: "all", Msgs: "transfer", InMsgs: "all"}, {Who: "scheduler"}, {Who: "dissent"}, {Who: "failure"}, {Who: "backup"},
